@@ -159,6 +159,9 @@ struct Sys
                         if (d == 0 && !cfg.lean)
                             ops.push_back("n " + cstr(c) + " " + std::to_string(d));  // createCell without neighbour list
                     }
+                // a cell that is created and then given up without ever being added: remove() "only updates the neighbour list" (its
+                // documentation), i.e. it must undo what createCell did to the neighbours' counts; contents unchanged
+                ops.push_back("c " + cstr(c) + " 0");
             }
             else
             {
@@ -232,6 +235,18 @@ struct Sys
                     }
                 }
                 o.model[c] = d;
+                break;
+            }
+            case 'c':
+            {
+                auto *cell = g.createCell(ec(c));
+                cell->data = 0;
+                if (g.remove(cell))
+                {
+                    o.nbhOk = false;
+                    o.nbhMsg = "remove() of a cell that was created but never added returned true";
+                }
+                g.destroyCell(cell);
                 break;
             }
             case 'R':
@@ -313,6 +328,7 @@ struct Sys
         {
             case 'N': return "create+add";
             case 'n': return "create+add";
+            case 'c': return "create+remove-unadded";
             case 'R': return "remove";
             case 'U': return "update";
             case 'A': return "updateAll";
@@ -723,7 +739,7 @@ int main(int argc, char **argv)
         r.bounds["dimension"] = std::to_string(cfg.dim);
         r.bounds["coordinates"] = std::to_string(cfg.coords.size());
         r.bounds["data_values"] = std::to_string(cfg.nData);
-        r.assumptions = {"createCell only for absent coordinates and always followed by add; remove only for present cells, followed by destroyCell",
+        r.assumptions = {"createCell only for absent coordinates, followed by add or (op c) by remove + destroyCell without add; remove otherwise only for present cells, followed by destroyCell",
                          "topInternal()/topExternal() only when the respective count is non-zero",
                          "GridB without bounds/limit override uses the default limit 2*dimension"};
     };
